@@ -316,3 +316,76 @@ def rule_spec(rule, sp=None):
 def schema_spec(schema, sp=None):
     sp = sp or Spelling()
     return {"rules": [rule_spec(r, sp) for r in schema.rules]}
+
+
+# --------------------------------------------------------------------------- recycled spec objects
+_EQ_KEYS = ("equal_to", "eq", "equal", "not_equal_to", "neq", "less_than", "lt", "greater_than", "gt", "lte", "gte")
+
+
+def variant(spec):
+    """-> (copy of `spec` with the same skeleton but other content, changed?)
+
+    Part lists under path-like keys become ['zz', 0]; scalar int / str arguments of comparison keys change value.
+    The variant of a well-formed spec is well-formed (it is parsed only to put the library through a first parse)."""
+    changed = [False]
+
+    def rec(x, key=None):
+        if isinstance(x, dict):
+            return {k: rec(v, k) for k, v in x.items()}
+        if isinstance(x, (list, tuple)):
+            if isinstance(key, str) and key.lower().split(".")[0].strip() == "path" and x:
+                changed[0] = True
+                return type(x)(["zz", 0])
+            return type(x)(rec(v) for v in x)
+        if isinstance(key, str) and key.lower().split(".")[-1] in _EQ_KEYS and "dtype" not in key.lower() and ".type" not in key.lower():
+            if isinstance(x, bool) or x is None:
+                return x
+            if isinstance(x, int):
+                changed[0] = True
+                return x + 1
+            if isinstance(x, str):
+                changed[0] = True
+                return x + "z"
+        return x
+
+    return rec(spec), changed[0]
+
+
+def morph(a, b):
+    """Give container `a` the content of `b` IN PLACE, keeping the container objects of `a` wherever both hold a
+    container of the same type at the same key / index (as a caller editing its own spec structure does)."""
+    import copy
+
+    if type(a) is dict and type(b) is dict:
+        old = dict(a)
+        a.clear()
+        for k, v in b.items():
+            a[k] = morph(old[k], v) if k in old else copy.deepcopy(v)
+        return a
+    if type(a) is list and type(b) is list:
+        old = list(a)
+        a[:] = [morph(old[i], v) if i < len(old) else copy.deepcopy(v) for i, v in enumerate(b)]
+        return a
+    return copy.deepcopy(b)
+
+
+def recycled(spec, parse_fn):
+    """A spec object holding exactly `spec`'s content that the library has already parsed once while it held OTHER
+    content (same container objects, edited in place in between) - or None when no variant exists.  What a parse
+    returns is a function of what the spec holds when it is parsed."""
+    import copy
+    from .snapshot import exact
+
+    if not isinstance(spec, (dict, list)):
+        return None
+    w, changed = variant(spec)
+    if not changed:
+        return None
+    try:
+        parse_fn(w)
+    except Exception:
+        pass
+    obj = morph(w, spec)
+    if obj is not w or exact(obj) != exact(spec):
+        return None
+    return obj
